@@ -17,24 +17,24 @@ CHECKS = {
     'C03': ('other', 'edge-condition, insertion-index expression and loop-advance rules over the MIR of the adjustment mechanism',
             'R3a automatic SfLA rows only on the not-registered edge; R3b inserted at i+k+1 and the loop advances by one without skipping (each evaluated once, right '
             'after its sale); R3c none generated when the user supplied the loss; R3d each amount depends on the denied amount and the affiliate\'s ratio; R3e reported '
-            'gain = loss - denied amount; R3f only the window computation writes the over-applied marker; R3g an empty status is handed out only for an affiliate without a recorded status. The conservation identity itself is NOT decided. ' + PARTIAL % 'C03'),
+            'gain = loss - denied amount; R3f only the window computation writes the over-applied marker; R3g an empty status is handed out only for an affiliate without a recorded status; R3h the per-affiliate status store only grows. The conservation identity itself is NOT decided. ' + PARTIAL % 'C03'),
     'C02': ('other', 'constant evaluation of the window bounds and tolerance + comparison normalisation on loop-exit edges + who-uses rule over MIR',
             'R2a window = settlement date -/+ Duration::days(30) from exactly two public functions; R2b bookkeeping and summary use only those (no private date '
             'arithmetic) on Tx.settlement_date; R2c both scan loops stop strictly outside the bounds (day +-30 inclusive); R2d the specified-loss tolerance '
-            'evaluates to 0.001, is strict, and applies only to un-forced values; every path accepting a supplied loss passes the check or the force marker; R2j a supplied value reaches the record whatever its amount. ' + PARTIAL % 'C02'),
+            'evaluates to 0.001, is strict, and applies only to un-forced values; every path accepting a supplied loss passes the check or the force marker; R2j a supplied value reaches the record whatever its amount; R2k the examination is entered exactly on the sign of the computed gain. ' + PARTIAL % 'C02'),
     'C04': ('other', 'ADT-construction closure + sibling field-use agreement over all AcbWriter impls + variant taint over MIR (+ compile-fail witnesses in thorough)',
             'R4a a ConstrainedDecimal (every balance/ACB/amount) can only be created by the checking constructor: all aggregates enumerated, no '
             'field store / &mut borrow / DerefMut-style impl / transmute / unsafe; R4b every output mode (text, CSV, web-UI serialiser) exports '
             'RenderTable.errors and the app pushes the bookkeeping error into it; R4c partial deltas of a rejected security never reach a gains or '
-            'summary calculator; R4d registered affiliates never acquire a cost base or gain; R4e the post-split balance tested for integrality has no factor that is already a rounded quotient; R4f no bookkeeping product or quotient uses the pre-divided factor of a split ratio; R4g output files are opened truncating. ' + PARTIAL % 'C04'),
-    'C05': ('other', 'abstract interpretation in a sign lattice (per generic instantiation) of every ConstrainedDecimal try_from().unwrap() and of every Decimal divisor; def-use rule parser-result -> unwrap',
+            'summary calculator; R4d registered affiliates never acquire a cost base or gain; R4e the post-split balance tested for integrality has no factor that is already a rounded quotient; R4f no bookkeeping product or quotient uses the pre-divided factor of a split ratio; R4g output files are opened truncating; R4h no error exit of the application is control-dependent (implicit flows included) on RenderTable.errors. ' + PARTIAL % 'C04'),
+    'C05': ('other', 'abstract interpretation in a sign lattice (per generic instantiation) of every ConstrainedDecimal try_from().unwrap() and of every Decimal divisor; def-use rule parser-result -> unwrap; capture-group participation analysis of the constant regular expressions behind every required group access',
             'R5a each of the ~25 infallibility beliefs `ConstrainedDecimal::try_from(e).unwrap()` is justified by sign algebra including rounding-to-zero, '
             'per instantiation of the generic wrappers (two sites by reviewed relational argument whose premises are re-checked); R5b no parser result on '
-            'non-constant text reaches unwrap/expect, and every compiled regex pattern is constant-derived; R5c no index is bounded only by the length of a different sequence; R5d no assertion demands exact equality of a Decimal expression computed on the spot; R5e every Decimal division / remainder has a divisor that is non-zero by type, by the sign lattice or by a dominating is_zero test. ' + PARTIAL % 'C05'),
+            'non-constant text reaches unwrap/expect, and every compiled regex pattern is constant-derived; R5c no index is bounded only by the length of a different sequence; R5d no assertion demands exact equality of a Decimal expression computed on the spot; R5e every Decimal division / remainder has a divisor that is non-zero by type, by the sign lattice or by a dominating is_zero test; R5f every capture group that is unwrapped or indexed (directly or behind helpers taking the group name) exists and is mandatory in the pattern(s), rebuilt from program constants, that produced the match. ' + PARTIAL % 'C05'),
     'C06': ('other', 'inter-procedural forward data-flow of rounded values to formatting sinks; parameter/field flow closure of the precision flag; field provenance of year keys',
             'R6a the result of every lossy Decimal operation reaches only string formatting (reviewed barriers with frozen caller sets for the '
             'effective-cent snap and spreadsheet floats); R6b the --print-full-values flag is only ever passed on to PrintHelper, whose field is '
-            'read only by curr_str; R6c gains are bucketed by Date::year() of Tx.settlement_date (no other calendar accessor) and total/yearly sums add the same value. ' + PARTIAL % 'C06'),
+            'read only by curr_str; R6c gains are bucketed by Date::year() of Tx.settlement_date (no other calendar accessor) and total/yearly sums add the same value; R6d no element is skipped in or dropped before the totals loops. ' + PARTIAL % 'C06'),
     'C07': ('other', 'evaluation of Ord::cmp / partial_cmp of Tx to its lexicographic chain of compared keys (through match, then/then_with, helpers); must-precede (dominator) sort-before-split; loop-carried definition of the read index; header normalisation provenance; index-stability taint',
             'R7a Tx order = (settlement_date, read_index) with read_index only on Equal; R7b sort dominates split_txs_by_security with no mutation in between '
             'and an order-preserving split; R7c the read index is carried across files and incremented per record; R7d header cells are lower-cased and '
@@ -50,7 +50,7 @@ CHECKS = {
     'C10': ('other', 'comparison normalisation against the shared window function, store-on-every-path rule, dependency signature of the summary purchase',
             'R10a the summarisable boundary compares settlement dates with the shared window start, strict on the summarisable side; R10b every re-emitted sale that '
             'was a superficial loss carries the computed loss explicitly and unforced; R10c the simple-summary purchase = (final balance, cost base / balance, no '
-            'commission) dated at the last summarised settlement date for the given affiliate; R10d summary rows sorted with Tx\'s ordering. The round trip itself is '
+            'commission) dated at the last summarised settlement date for the given affiliate; R10d summary rows sorted with Tx\'s ordering; R10e-R10g window starts of later losses, the per-affiliate scan covers the whole range. The round trip itself is '
             'NOT decided. ' + PARTIAL % 'C10'),
     'C11': ('other', 'constant-set agreement between writer and reader tables + per-column field mapping agreement + field coverage over MIR',
             'R11a export list = reader set minus deprecated "date"; R11b one writer arm per exported column; R11c the reader consumes every recognised column and '
@@ -69,7 +69,7 @@ CHECKS = {
             'atomicity no prefix of a new cache file is ever observable under the live name, for every crash point.'),
     'C15': ('other', 'assignment census of the Split arm, dependency of the new balance, store census of the global-split expansion, scan-loop case coverage',
             'R15a the Split arm assigns neither cost base nor gain; R15b the new balance depends on the ratio and the old balance; R15c global-split expansion clones '
-            'the row and overwrites the affiliate only; R15d both superficial-loss window scans apply splits. The metamorphic relation between rescaled runs is NOT '
+            'the row and overwrites the affiliate only; R15d both superficial-loss window scans apply splits; R15e keyed by the affiliate of the scanned row. The metamorphic relation between rescaled runs is NOT '
             'decided. ' + PARTIAL % 'C15'),
     'C16': ('other', 'must-precede (dominator + data dependence) of parse_initial_status before processing in each front end; use-set rule on the opening-position map',
             'R16a every front end starts processing only after, and with the Ok payload of, parse_initial_status; R16b the opening-position map is only queried with '
@@ -80,14 +80,14 @@ CHECKS = {
             'under its own year and replaced only for a strictly larger total; R17e-R17h nothing is recorded before the skip filters, the carried figure is the closing cost and not the day maximum, every delta reaches the cost pass, the opening cost is recorded once. ' + PARTIAL % 'C17'),
     'C18': ('other', 'index-stability taint (length-changing adaptor before enumerate) + who-may-index rules over MIR',
             'R18a header-name->index maps are built from positions in the unfiltered header row; R18b the converter reads cells only by '
-            'header name; R18c rows are indexed only with the stored index; R18d a foreign-currency trade row always gets its implicit FX leg; R18e no binary-expansion float conversion; R18f cash amounts keep their sign. ' + PARTIAL % 'C18'),
+            'header name; R18c rows are indexed only with the stored index; R18d a foreign-currency trade row always gets its implicit FX leg; R18e no binary-expansion float conversion; R18f cash amounts keep their sign; R18g account text; R18h every sheet row is offered to the converter. ' + PARTIAL % 'C18'),
     'C19': ('other', 'constant + comparison normalisation of the candidate window, pool-consumption data flow, guarded-Ok rule, loop must-pass-through over the matcher',
             'R19a candidates are trades with benefit date <= trade date <= benefit date + 5 days; R19b matched trades are removed from the very pool that later '
             'candidates and the manual trades come from; R19c Ok only when no matching error was recorded; R19d one row per benefit and per left-over trade, pushed '
-            'unconditionally, then sorted; R19e-R19g a benefit with sold shares is always matched, the returned set comes from the filtered candidates, every parsed entry is collected. The text parsers and the share-count combination search are NOT decided. ' + PARTIAL % 'C19'),
+            'unconditionally, then sorted; R19e-R19g a benefit with sold shares is always matched, the returned set comes from the filtered candidates, every parsed entry is collected; R19h pool entries are removed by comparing whole trades. The text parsers and the share-count combination search are NOT decided. ' + PARTIAL % 'C19'),
     'C20': ('other', 'sanitiser must-pass-through (provenance) + grow-only guard (edge condition) rules over MIR',
             'R20a every page-group list reaching the optimised page iterator comes from safe_page_chunks_with_remainder*; R20b the '
-            'loaded-page cache is only resized under len() < new_len and never truncated; R20c-R20f a popped page is yielded, requested pages are loaded and queued unfiltered, the iterator ends only when groups are exhausted or loading failed, every page is tested for the table marker; R20g/R20h an unfinishable total-like line joins the pending security, remainder page ranges start at 1, reach the last page and are contiguous. ' + PARTIAL % 'C20'),
+            'loaded-page cache is only resized under len() < new_len and never truncated; R20c-R20f a popped page is yielded, requested pages are loaded and queued unfiltered, the iterator ends only when groups are exhausted or loading failed, every page is tested for the table marker; R20g/R20h an unfinishable total-like line joins the pending security, remainder page ranges start at 1, reach the last page and are contiguous; R20i the remainder pages reach the page groups without a step that can leave pages out. ' + PARTIAL % 'C20'),
 }
 
 NOT_APPLICABLE = {
